@@ -3,7 +3,11 @@ package gen
 // Channel W (property C04): `W <ms> <line>` = a protocol line under a watchdog, and the
 // one entry point only this channel has in the model, `W <ms> F <spec> setbytes <hex>`
 // (SetBytes of primitive and composite fields), on coherent generated specs: the bytes a
-// real Bytes() produced, their truncations / mutations, and random bytes.
+// real Bytes() produced, their truncations / mutations, and random bytes. A second stream
+// covers the two places where misuse used to panic / hang (repaired findings KF6, KF5):
+// bitmaps declared with any prefixer — Fixed or not, both expansion modes, as bare bitmap
+// (B), composite bitmap and message bitmap — and tagged composites with Tag.Length 0 and
+// zero-width subfields; model and code must agree there too.
 
 import (
 	"fmt"
@@ -40,5 +44,66 @@ func ChannelW(t Tier, r *Rng, emit Emit) {
 		if i%5 == 0 {
 			emit(fmt.Sprintf("W %d F %s unpack %s", wMs, ss, H(r.Bytes(r.Intn(10)))))
 		}
+	}
+
+	anyPref := func() string {
+		switch r.Intn(6) {
+		case 0:
+			return "none"
+		case 1:
+			return "ber"
+		case 2:
+			return Pick(r, PrefFams) + ".F"
+		}
+		return fmt.Sprintf("%s.%d", Pick(r, PrefFams), 1+r.Intn(3))
+	}
+	// bytes that make length prefixes announce 0, 1, 2 … or fail
+	small := func() []byte {
+		var out []byte
+		for n := r.Intn(4); n >= 0; n-- {
+			switch r.Intn(5) {
+			case 0:
+				out = append(out, r.Bytes(r.Intn(4))...)
+			case 1:
+				out = append(out, r.From([]byte("0012"), 1+r.Intn(3))...)
+			default:
+				out = append(out, Pick(r, [][]byte{{0}, {1}, {2}, {0, 0}, {0, 1}, {0x80}, {0x81, 0}, {0x81, 1}, {0xF0}, {0xF0, 0xF1}, {0x40}, {0xC0}, {0xFF}, []byte("00"), []byte("30")})...)
+			}
+		}
+		return out
+	}
+	benc := func() string {
+		return Pick(r, []string{"binary", "binary", "bytesToHex", "ascii", "bcd", "ebcdic", "hexToBytes", "berTag"})
+	}
+	for i := 0; i < t.N(600, 20000); i++ {
+		// bare bitmap
+		emit(fmt.Sprintf("W %d B unpack %s %s %d %d %s", wMs, benc(), anyPref(), Pick(r, []int{0, 1, 2, 8}), r.Intn(2), H(small())))
+		// composite bitmap (never auto-expands), Unpack and SetBytes
+		cb := fmt.Sprintf("c(%d,%s,b(%d,%s,%s),sub(1,p(s,1,ascii,ascii.F,nil,d)),sub(3,p(s,0,ascii,ascii.1,nil,d)))",
+			Pick(r, []int{0, 3, 9}), Pick(r, []string{"none", "ascii.1", "ber", "ascii.F", "binary.1"}), Pick(r, []int{0, 1, 2}), benc(), anyPref())
+		emit(fmt.Sprintf("W %d F %s unpack %s", wMs, cb, H(small())))
+		emit(fmt.Sprintf("W %d F %s setbytes %s", wMs, cb, H(small())))
+		// message bitmap, both expansion modes
+		mb := fmt.Sprintf("m(p(s,%d,ascii,ascii.F,nil,d),bm(%d,%s,%s,%d),f(2,p(s,1,ascii,ascii.F,nil,d)),f(3,p(s,2,ascii,ascii.1,nil,d)))",
+			Pick(r, []int{0, 1, 4}), Pick(r, []int{0, 1, 2, 8}), benc(), anyPref(), r.Intn(2))
+		emit(fmt.Sprintf("W %d M %s unpack %s", wMs, mb, H(append(r.From([]byte("0123"), r.Intn(5)), small()...))))
+		// tagged composite: tag length 0..2, zero-width and one-byte subfields, "" among the keys
+		tl := r.Intn(3)
+		tenc := Pick(r, []string{"ascii", "bcd", "binary", "ebcdic", "hexToBytes"})
+		keys := []string{"", "1", "A", "12"}
+		skip, pu := "0", "-"
+		if r.Intn(3) == 0 {
+			skip, pu = "1", Pick(r, []string{"ascii.1", "ber", "none", "ascii.F", "binary.1"})
+		}
+		tc := fmt.Sprintf("c(%d,%s,t(%d,%s,%s,str,%s,%s)", Pick(r, []int{0, 3, 9}), Pick(r, []string{"none", "ascii.1", "ber", "ascii.F"}),
+			tl, tenc, Pick(r, []string{"nil", "none", "L30"}), skip, pu)
+		for _, k := range keys {
+			if r.Intn(2) == 0 {
+				tc += fmt.Sprintf(",sub(%s,p(s,%d,ascii,%s,nil,d))", k, r.Intn(2), Pick(r, []string{"ascii.F", "ascii.1", "none"}))
+			}
+		}
+		tc += ")"
+		emit(fmt.Sprintf("W %d F %s unpack %s", wMs, tc, H(small())))
+		emit(fmt.Sprintf("W %d F %s setbytes %s", wMs, tc, H(small())))
 	}
 }
